@@ -181,9 +181,59 @@ def case_summary(case):
 # ----------------------------------------------------------------------------- judging
 
 
+def case_features(case, spec_runs):
+    """Which parts of the pipeline does this case exercise (vacuity accounting)."""
+    by = {g["name"]: g for g in case["glyphs"]}
+    f = set()
+    for g in case["glyphs"]:
+        l0 = g["layers"][0]
+        mids = any(l["l"] == 1 for l in g["layers"])
+        for cp, tk in zip(l0["comps"], g["tks"]):
+            if cp["b"] == "missing":
+                f.add("missing component pruned")
+                continue
+            b = by[cp["b"]]
+            if not b["exp"]:
+                f.add("non-export component inlined")
+                if any(c2["b"] != "missing" and not by[c2["b"]]["exp"] for c2 in b["layers"][0]["comps"]):
+                    f.add("nested non-export components")
+                if mids != any(l["l"] == 1 for l in b["layers"]):
+                    f.add("non-export component with different layers (interpolation)")
+            if tk == "s3":
+                f.add("2x2 outside F2Dot14 (forced decomposition)")
+            if tk == "fx":
+                f.add("negative determinant")
+            if tk in ("s2", "sh", "fx", "r90", "s3"):
+                f.add("transformed component")
+            if any(c2["b"] != "missing" for c2 in b["layers"][0]["comps"]):
+                f.add("nested components (depth >= 2)")
+            if mids != any(l["l"] == 1 for l in b["layers"]):
+                f.add("component with different layers")
+        if g["kind"] == "mixed" and any(cp["b"] != "missing" for cp in l0["comps"]):
+            f.add("mixed contours + components")
+    if any(len(r["order"]) > sum(1 for g in case["glyphs"] if g["exp"]) for r in spec_runs):
+        f.add("contours split into a derived glyph")
+    if any(g["name"] == "g1.0" for g in case["glyphs"]):
+        f.add("source glyph named like a derived glyph")
+    if case["nloc"] > 1:
+        f.add("variable")
+    if 1 in case["locs"]:
+        f.add("intermediate layers")
+    return f
+
+
+FEATURES_REQUIRED = ["missing component pruned", "non-export component inlined", "nested non-export components",
+                     "non-export component with different layers (interpolation)",
+                     "2x2 outside F2Dot14 (forced decomposition)", "negative determinant", "transformed component",
+                     "nested components (depth >= 2)", "component with different layers", "mixed contours + components",
+                     "contours split into a derived glyph", "source glyph named like a derived glyph", "variable",
+                     "intermediate layers"]
+
+
 class Judge:
     def __init__(self, ctx):
         self.ctx = ctx
+        self.features = {}
         self.n_fonts = 0
         self.n_cmp = 0
         self.n_pair = 0
@@ -534,6 +584,8 @@ def run_generated(ctx, judge, total, chunk, cfg, procs, tlc_timeout):
                 continue
             if judge.case(c_, by_k[c_["k"]], r, src):
                 n_cases += 1
+                for ft in case_features(c_, by_k[c_["k"]]):
+                    judge.features[ft] = judge.features.get(ft, 0) + 1
                 ctx.ev.sample({"kind": "generated case", "k": c_["k"], "summary": case_summary(c_),
                                "expect_g1_default": c_["expect"][0]["at"][0]}, limit=3)
             if any(x["gaps"] for x in by_k[c_["k"]]):
@@ -618,7 +670,7 @@ def main(ctx):
     n_cases, n_invalid, gaps_cases = run_generated(ctx, judge, total, chunk, cfg, procs, tlc_timeout)
     common.log("fixtures: %d sources x 16 option subsets" % len(fixtures))
     fx = run_fixtures(ctx, judge, fixtures, procs)
-    for s in fx[:3]:
+    for s in sorted(fx, key=lambda s: -s["storages"])[:3]:
         ev.sample({"kind": "fixture", **s}, limit=6)
     ev.traces = judge.n_fonts
     ev.evaluations = judge.n_cmp
@@ -631,7 +683,11 @@ def main(ctx):
         "spec_gaps_predicted": judge.gaps_predicted, "spec_gaps_confirmed_on_real_code": judge.gaps_confirmed,
         "spec_gaps_refuted_on_real_code": judge.gaps_refuted, "cases_with_spec_gaps": gaps_cases,
         "violation_classes": judge.classes, "drift_kinds": judge.drifts,
+        "cases_exercising": {ft: judge.features.get(ft, 0) for ft in FEATURES_REQUIRED},
         "contours_compared_undirected": judge.undirected, "fixture_pairs_incomparable_curves": judge.incomparable_curves,
     })
     if n_cases == 0:
         raise common.ToolError("no generated case was compiled")
+    idle = [ft for ft in FEATURES_REQUIRED if not judge.features.get(ft)]
+    if idle and n_cases >= 100:
+        raise common.ToolError("vacuous run: no generated case exercised %s" % idle)
